@@ -548,6 +548,7 @@ func TestC10(t *testing.T) {
 			g.W = map[string]int{"CreateSchedule": 5, "DeleteSchedule": 2, "ReadSchedule": 1, "CreatePromise": 2, "ReadPromise": 1}
 			g.RouteOneIn = 0
 			g.SchedRouteOneIn = 4
+			g.HugeTtlOneIn = 10                             // one schedule in ten configures a promise timeout of "never"
 			g.Scheds = []string{"sch1", "sch2", "s&<'\"+>"} // ids are interpolated into promise ids verbatim, whatever they contain
 			c := &Case{Cfg: GenConfig(d, 8), Prof: Profile{Bg: []string{"SchedulePromises", "TimeoutPromises"}, Permute: true, Hold: 6, Cut: 2}, Gen: g, Steps: [2]int{4, 14}, MaxRq: 2,
 				Dts: []int64{0, 0, 1, 500, 1000, 1000, 2000, -1, -1, -2, -3, 5000, 12000}, Settle: 8}
